@@ -587,7 +587,8 @@ int main(int argc, char** argv) {
                 std::vector<Knot> K;
                 const double Lfd = std::min(L, 0.8 * S.rhoMin);   // spacing Lfd/8 <= 0.1 rhoMin
                 g.shootGeodesicInDirectionAnalytically(P, T, Lfd, 9, [&](const Knot& k) { K.push_back(k); });
-                if (K.size() == 9) {
+                if (K.size() == 9 && Lfd / 8 < 0.005 * S.rhoMin) run.count("fd-skipped:analytic-curvature-knot-spacing-below-round-off-limit");   // second differences of 1e-16-accurate points need a spacing >> sqrt(eps)
+                else if (K.size() == 9) {
                     const double h = Lfd / 8;
                     auto d2 = [&](int st) { return (-K[4 + 2 * st].point + 16.0 * K[4 + st].point - 30.0 * K[4].point + 16.0 * K[4 - st].point - K[4 - 2 * st].point) / (12.0 * (st * h) * (st * h)); };
                     const Vec3 a1 = d2(1), a2 = d2(2);
@@ -631,7 +632,7 @@ int main(int argc, char** argv) {
                     run.residual("implicit-geodesic-curvature-by-finite-differences/" + S.kind, std::abs(dot(a, b)) / tolK, 1.0, where);
                     run.residual("implicit-normal-curvature-by-finite-differences/" + S.kind, std::abs(-dot(a, toD(n)) - (double)S.normalCurvature(toL(p0), toL(t0))) / tolK, 1.0, where);
                     const Vec3 d1 = (pm[2] - 8.0 * pm[1] + 8.0 * pp[1] - pp[2]) / (12.0 * h);
-                    run.residual("implicit-arc-length-parameter-by-finite-differences/" + S.kind, (d1 - t0).norm() / (30 * noise / h + 1e-5), 1.0, where);
+                    run.residual("implicit-arc-length-parameter-by-finite-differences/" + S.kind, (d1 - t0).norm() / (30 * noise / h + 1e-4), 1.0, where);
                 } else run.count("fd-skipped:implicit-curvature");
             }
         }
